@@ -66,6 +66,11 @@ impl Src {
             _ => Src::new(seed, Mode::Scaled([40, 50, 58, 60, 62, 63, 64, 66][((h >> 8) % 8) as usize])),
         };
         s.slot = 0;
+        // every other call builds its padded operands (Vec3A, Mat3A columns, masks) with arbitrary content in the unused lane,
+        // a different one per operand: the visible lanes are the same in every build, so results must still agree with scalar-math
+        if (h >> 4) % 2 == 0 {
+            s.hidden = Hidden::Mixed { start: (h >> 20) as u32 };
+        }
         // indices 0..=4: every lane / column / minor index pair of every type, and a consistent panic beyond the type's range
         s.index_range = 5;
         s
